@@ -1151,6 +1151,8 @@ func runScenario(sc *Scenario, watchdog time.Duration) (rr *runRec, mustRestart 
 	}()
 	lastClock := hk.clock.Load()
 	lastMove := time.Now()
+	spinChecked := false
+	var lastTry time.Time
 	quiet := 300 * time.Millisecond
 	if d := 20 * time.Duration(sc.RefreshUS) * time.Microsecond; d > quiet {
 		quiet = d
@@ -1166,6 +1168,7 @@ func runScenario(sc *Scenario, watchdog time.Duration) (rr *runRec, mustRestart 
 		now := time.Now()
 		if c != lastClock {
 			lastClock, lastMove = c, now
+			spinChecked = false
 			// livelock: bounded progress in completed render cycles (DESIGN 2.4)
 			if t := rr.tWaitInv.Load(); t != 0 && rr.tWaitRet.Load() == 0 && rr.tAllTerminal.Load() != 0 {
 				if hk.counts[hpRenderBegin].Load()-rr.cyclesAtTerminal.Load() > livelockBound(sc) && now.Sub(rr.wallStart) > time.Second {
@@ -1175,7 +1178,8 @@ func runScenario(sc *Scenario, watchdog time.Duration) (rr *runRec, mustRestart 
 					return rr, true
 				}
 			}
-		} else if now.Sub(lastMove) > quiet {
+		} else if now.Sub(lastMove) > quiet && now.Sub(lastTry) > 500*time.Millisecond {
+			lastTry = now
 			d1 := stuck.Dump()
 			time.Sleep(150 * time.Millisecond)
 			if hk.clock.Load() == c {
@@ -1188,8 +1192,23 @@ func runScenario(sc *Scenario, watchdog time.Duration) (rr *runRec, mustRestart 
 					return rr, true
 				}
 			}
-			lastMove = time.Now() // re-arm
-			lastClock = hk.clock.Load()
+			if hk.clock.Load() != c {
+				lastMove = time.Now()
+				lastClock = hk.clock.Load()
+				spinChecked = false
+			}
+		}
+		// spinning: the logical clock has stood still for 5 s while some goroutine is
+		// running library code in every one of five dumps taken 100 ms apart (a loop in
+		// the library that makes no progress). Harness goroutines only ever sleep-poll.
+		if now.Sub(lastMove) > 5*time.Second && !spinChecked {
+			spinChecked = true
+			if fn := spinningLibraryFrame(); fn != "" && hk.clock.Load() == c {
+				rr.stuckKind = "deadlock"
+				rr.stuckDump = stuck.Dump()
+				rr.stuckSig = "spin@" + fn
+				return rr, true
+			}
 		}
 		if now.Sub(rr.wallStart) > watchdog {
 			rr.stuckKind = "watchdog"
@@ -1234,6 +1253,40 @@ func (rr *runRec) runningBarsClass() string {
 		return "no-bar-running"
 	}
 	return strings.Join(ks, ",")
+}
+
+// spinningLibraryFrame: the innermost library function of a goroutine that is
+// running or runnable with a library frame innermost (below runtime frames) in
+// all of five dumps 100 ms apart; "" if there is none.
+func spinningLibraryFrame() string {
+	count := map[string]int{}
+	for k := 0; k < 5; k++ {
+		seen := map[string]bool{}
+		for _, g := range stuck.Parse(stuck.Dump()) {
+			if g.State != "running" && g.State != "runnable" {
+				continue
+			}
+			for _, f := range g.Frames {
+				if strings.HasPrefix(f, "runtime.") || strings.HasPrefix(f, "created by") {
+					continue
+				}
+				if strings.Contains(f, "github.com/vbauerster/mpb/v8") && !strings.Contains(f, ".vhook") {
+					seen[f] = true
+				}
+				break // only the innermost non-runtime frame counts
+			}
+		}
+		for f := range seen {
+			count[f]++
+		}
+		time.Sleep(100 * time.Millisecond)
+	}
+	for f, n := range count {
+		if n == 5 {
+			return f
+		}
+	}
+	return ""
 }
 
 func isHarnessMonitor(g stuck.G) bool {
